@@ -257,6 +257,14 @@ class DocModel(object):
     else:
       self._auto_remove_set.discard(record)
 
+  def get_auto_removes(self):
+    """Returns a copy of the set of records currently marked for removal."""
+    return set(self._auto_remove_set)
+
+  def set_auto_removes(self, records):
+    """Replaces the set of records marked for removal (with one saved by get_auto_removes)."""
+    self._auto_remove_set = set(records)
+
   def apply_auto_removes(self):
     """
     Remove the records marked for removal.
